@@ -187,7 +187,7 @@ func Counting(p *core.Prog, r *core.Report) {
 		var msg *ssa.Call
 		core.EachInstr(f, func(i ssa.Instruction) {
 			if c, ok := i.(*ssa.Call); ok {
-				if g := core.StaticCallee(c); g != nil && g.Name() == "mustValidateAtLeastOneSchemaMsg" {
+				if g := core.StaticCallee(c); g != nil && core.BaseName(g) == "mustValidateAtLeastOneSchemaMsg" {
 					msg = c
 				}
 			}
